@@ -297,14 +297,16 @@ func (info *decodeInfo) decodeCharString(code []byte) (*Glyph, error) {
 					extra := stack[10]
 					dx := stack[0] + stack[2] + stack[4] + stack[6] + stack[8]
 					dy := stack[1] + stack[3] + stack[5] + stack[7] + stack[9]
+					// The last point has the same y (or x) coordinate as
+					// the starting point of the flex.
 					if math.Abs(dx) > math.Abs(dy) {
 						rCurveTo(stack[6], stack[7],
 							stack[8], stack[9],
-							extra, 0)
+							extra, -dy)
 					} else {
 						rCurveTo(stack[6], stack[7],
 							stack[8], stack[9],
-							0, extra)
+							-dx, extra)
 					}
 					// fd = 0.5
 				}
